@@ -447,58 +447,86 @@ def emd_oracle(ctx, d):
 # ---------------------------------------------------------------------------------------------- run
 
 
-def one_dim_correspondence(ctx, d):
-    """Lean model (exact rationals) vs real solvers on 1-D grids: unique flux and its cost for the rational rules."""
+def thin_case(args):
+    """worker: one real solve on a thin grid (exceptions as data)."""
+    import darsia as d
+
+    shape, hs, m1, m2, method, mob, l1 = args
+    dims = [s * h for s, h in zip(shape, hs)]
+    r = solve(d, np.array(m1), np.array(m2), dims, method, options(l1, mob, 100, L=1.0))
+    if isinstance(r, Raised):
+        return ("raised", repr(r), str(r.exc)[:120])
+    try:
+        return ("ok", float(r[0]), [u.tolist() for u in recover_flux(r[1]["flux"], tuple(shape))])
+    except Exception as e:  # noqa: BLE001
+        return ("raised", "!Other", f"info['flux'] unusable: {type(e).__name__}: {e}")
+
+
+def thin_correspondence(ctx, d):
+    """Lean model (exact rationals: prefix-sum flux, its feasibility, its exact cost) vs the real solvers on 1-D and thin
+    2-D/3-D grids, every method x mobility cycled, the two L1 modes with rational quadrature nodes."""
     rng = ctx.rng
-    reqs, cases = [], []
-    for _ in range(ctx.pick(6, 30)):
-        n = rng.randint(2, ctx.pick(12, 40))
-        h0 = rng.choice((0.25, 0.5, 1.0, 2.0, 0.75))
-        m1 = np.array([rng.randint(1, 16) / 8 for _ in range(n)])
-        m2 = np.array([rng.randint(1, 16) / 8 for _ in range(n)])
+    combos = list(itertools.product(("newton", "bregman"), MOB, L1[1:]))
+    rng.shuffle(combos)
+    nmax = ctx.pick(14, 40)
+    cases = []
+    forms = [lambda n: (n,), lambda n: (n, 1), lambda n: (1, n), lambda n: (n, 1, 1), lambda n: (1, n, 1), lambda n: (1, 1, n)]
+    for i in range(ctx.pick(18, 120)):
+        n = rng.choice((2, 3, nmax)) if i % 5 == 0 else rng.randint(2, nmax)
+        shape = forms[i % len(forms)](n)
+        dim = len(shape)
+        a = shape.index(n)
+        hs = [rng.choice((0.25, 0.5, 1.0, 2.0, 0.75)) for _ in range(dim)]
+        m1 = np.array([rng.randint(0 if i % 4 == 0 else 1, 16) / 8 for _ in range(n)])
+        m2 = np.array([rng.randint(0 if i % 4 == 0 else 1, 16) / 8 for _ in range(n)])
+        m1[0] += 0.125
+        m2[-1] += 0.125
         diff = float(m1.sum() - m2.sum())
         if diff >= 0:
             m2[-1] += diff
         else:
             m1[-1] -= diff
-        method = rng.choice(("newton", "bregman"))
-        mob = rng.choice(MOB)
-        l1 = rng.choice(L1[1:])  # rational quadrature rules: corners, midpoint
-        f = [frac(b) - frac(a) for a, b in zip(m1, m2)]
+        f = [frac(b) - frac(x) for x, b in zip(m1, m2)]
         if sum(f) != 0:
             continue
-        pts, w = quadrature(d, l1, 1)
-        r = solve(d, m1, m2, [n * h0], method, options(l1, mob, 100, L=1.0))
-        reqs.append(f"uflux {n} {fmt(h0)} {flist(f)}")
-        reqs.append(None)  # cost request is built from the model's flux
-        cases.append(dict(n=n, h0=h0, m1=m1, m2=m2, method=method, mob=mob, l1=l1, r=r, pts=pts, w=w, f=f))
-    ufl = ctx.model([q for q in reqs if q is not None])
-    creq = []
-    for c, u in zip(cases, ufl):
-        creq.append(f"cost1d {c['n']} {fmt(c['h0'])} {flist(c['w'])} {flist(c['pts'].ravel())} {c['n'] - 1} {u}".strip())
-    costs = ctx.model(creq)
+        method, mob, l1 = combos[i % len(combos)]
+        pts, w = quadrature(d, l1, dim)
+        req = f"thin {dim} {' '.join(map(str, shape))} {flist(hs)} {a} {flist(w)} {flist(pts.ravel())} {flist(f)}"
+        cases.append(dict(shape=list(shape), hs=hs, m1=m1.reshape(shape, order="F").tolist(), m2=m2.reshape(shape, order="F").tolist(),
+                          method=method, mob=mob, l1=l1, a=a, req=req))
+    with mp.get_context("fork").Pool(min(16, max(2, mp.cpu_count()))) as pool:
+        res = pool.map(thin_case, [(c["shape"], c["hs"], c["m1"], c["m2"], c["method"], c["mob"], c["l1"]) for c in cases], chunksize=1)
+    model = ctx.model([c["req"] for c in cases])
     bad = 0
-    for c, u, cm in zip(cases, ufl, costs):
-        ctx.count(("1d", c["n"], c["h0"], c["method"], c["mob"], c["l1"], c["m1"].tobytes()))
-        rp = {"shape": [c["n"]], "hs": [c["h0"]], "m1": c["m1"].tolist(), "m2": c["m2"].tolist(), "method": c["method"], "mob": c["mob"], "l1": c["l1"], "num_iter": 100}
-        if isinstance(c["r"], Raised):
-            ctx.fail(f"C05:thin-grid:raises:mobility={c['mob']}:{c['method']}", f"1-D grid n={c['n']}: {c['method']} raises {c['r']}", rp)
-            continue
+    worst = 0.0
+    for c, r, m in zip(cases, res, model):
+        ctx.count(("thin", c["req"], c["method"], c["mob"]))
+        rp = {k: c[k] for k in ("shape", "hs", "m1", "m2", "method", "mob", "l1")} | {"num_iter": 100}
         try:
+            flags, fl, cm = [x.strip() for x in m.split("|")]
             want = float(frac(cm))
-            uf = [float(frac(x)) for x in u.split()]
+            uf = [float(frac(x)) for x in fl.split()]
+            if flags != "1 1":
+                raise ValueError(flags)
         except Exception:  # noqa: BLE001
             bad += 1
+            first = (c["req"], m)
             continue
-        dist = float(c["r"][0])
-        got_u = recover_flux(c["r"][1]["flux"], (c["n"],))[0]
-        if len(uf) != len(got_u) or np.max(np.abs(np.array(uf) - got_u)) > 1e-9 * max(1.0, float(np.max(np.abs(uf)))):
-            ctx.fail(f"C05:thin-grid:flux:{c['method']}", f"1-D grid n={c['n']}: returned flux differs from the unique mass-conserving flux (prefix sums)", {**rp, "model_flux": uf, "impl_flux": got_u.tolist()})
+        if r[0] == "raised":
+            ctx.fail(f"C05:thin-grid:raises:mobility={c['mob']}:{c['method']}", f"grid {tuple(c['shape'])}: {c['method']} raises {r[1]}: {r[2]}", rp)
+            continue
+        dist, U_axes = r[1], r[2]
+        got_u = np.array(U_axes[c["a"]])
+        if len(uf) != len(got_u) or (len(uf) and np.max(np.abs(np.array(uf) - got_u)) > 1e-9 * max(1.0, float(np.max(np.abs(uf))))):
+            ctx.fail(f"C05:thin-grid:flux:{c['method']}", f"grid {tuple(c['shape'])}: returned flux differs from the unique mass-conserving flux (prefix sums)",
+                     {**rp, "model_flux": uf, "impl_flux": got_u.tolist()})
+        worst = max(worst, abs(dist - want) / max(want, 1e-300))
         if abs(dist - want) > 1e-9 * max(want, 1e-12):
-            ctx.fail(f"C05:thin-grid:mobility={c['mob']}:{c['method']}", f"1-D grid n={c['n']} {c['l1']}: distance {dist!r} but the unique mass-conserving flux costs {want!r} (exact model value)", {**rp, "distance": dist, "closed_form": want})
-    ctx.cov.setdefault("correspondence", {})["1d-unique-flux-and-cost(model exact vs solver, rel 1e-9)"] = {"cases": len(cases), "disagreements": bad}
+            ctx.fail(f"C05:thin-grid:mobility={c['mob']}:{c['method']}", f"grid {tuple(c['shape'])} {c['l1']}: distance {dist!r} but the unique mass-conserving flux costs {want!r} (exact model value)",
+                     {**rp, "distance": dist, "closed_form": want})
+    ctx.cov.setdefault("correspondence", {})["thin-unique-flux-and-cost(model exact vs solver, rel 1e-9)"] = {"cases": len(cases), "disagreements": bad, "max_rel_err": worst}
     if bad:
-        ctx.mark("TIE-BROKEN", {"correspondence": "1d-unique-flux-and-cost", "unparsable_model_lines": bad})
+        ctx.mark("TIE-BROKEN", {"correspondence": "thin-unique-flux-and-cost", "bad_model_lines": bad, "request": first[0], "model": first[1]})
 
 
 def make_cases(ctx):
@@ -551,7 +579,7 @@ def run(ctx):
         if t[k] != want:
             ctx.fail(f"C05:dispatch:{k}", f"wasserstein_distance(method={METHODS[k]!r}) reaches {t[k]!r}, documented back-end is {want}", {"method": METHODS[k]})
 
-    one_dim_correspondence(ctx, d)
+    thin_correspondence(ctx, d)
     emd_oracle(ctx, d)
 
     cases = make_cases(ctx)
